@@ -1,32 +1,16 @@
-// A-codec check: `sjis B<bytes>` -> decode with encoding_rs SHIFT_JIS, re-encode; reports losslessness.
-// `sjis U<scalars as L-list>` -> encode a Unicode string, report bytes, errors and NUL-freeness.
+// Canonicaliser service (not a property case): what mila makes of a raw name.
+// case: sjis B<raw bytes>      line: <utf-8 hex of the decoded string> <hex of its re-encoding | ?>
+// Used by gen/packtotal.py to compare the model's raw (encoded-form) names with the strings the
+// library returns on malformed input, so the codec stays on the trusted side (DESIGN 1.4).
+use crate::h_pack::*;
 use crate::h_util::*;
-use encoding_rs::SHIFT_JIS;
 
 pub fn run(toks: &[&str]) -> String {
-    let t = toks[0];
-    if t.starts_with('B') {
-        let b = parse_b(t);
-        let (s, _, had_errors) = SHIFT_JIS.decode(&b);
-        let (b2, _, unmappable) = SHIFT_JIS.encode(&s);
-        format!(
-            "lossless={} decode_errors={} unmappable={} scalars={} reencoded={}",
-            b2.as_ref() == b.as_slice() && !had_errors && !unmappable,
-            had_errors,
-            unmappable,
-            show_str(&s),
-            show_b(&b2)
-        )
-    } else {
-        let s = str_of_l(&format!("L{}", &t[1..]));
-        let (b, _, unmappable) = SHIFT_JIS.encode(&s);
-        let (s2, _, had_errors) = SHIFT_JIS.decode(&b);
-        format!(
-            "bytes={} unmappable={} nulfree={} lossless={}",
-            show_b(&b),
-            unmappable,
-            !b.contains(&0),
-            !unmappable && !had_errors && s2 == s
-        )
-    }
+    let raw = parse_b(toks[0]);
+    let s = decode_name(&raw);
+    let re = match encode_name(&s) {
+        Some(b) => hex(&b),
+        None => "?".to_string(),
+    };
+    format!("U{} S{}", hex(s.as_bytes()), re)
 }
